@@ -11,6 +11,9 @@
   R6  try_sample returns InsufficientNonZero exactly when the tree is empty or the total is zero (the shape-visible clause of C10).
 Not decided: equality with a fresh build after arbitrary histories (inductive invariant over histories).
 """
+CONFIGS_THOROUGH = ["serde"]
+ALL_WEIGHTS_THOROUGH = True
+
 from fractions import Fraction
 
 import rules_c04
@@ -276,6 +279,28 @@ def run(chk, F, tier):
                                 ("div", T.of_operand(s_["rv"]["a"]), T.of_operand(s_["rv"]["b"])) if s_["rv"]["k"] == "binop" and s_["rv"]["op"] == "Div" else None)
                             if tm is not None and tm[0] == "div":
                                 steps.append((bi, s_["place"]["l"]))
+                # a walk that steps a loop-carried index must run until that index is 0 (the root is the last node written):
+                # the loop's own exit test has to compare the walking variable with the constant 0
+                if steps:
+                    walk_locals = {sl for _, sl in steps}
+                    exit_ok = False
+                    for (src, dst) in fi.loop_exits(body):
+                        tsw = inst["blocks"][src]["term"]
+                        if tsw["k"] != "switch":
+                            continue
+                        for s_ in inst["blocks"][src]["stmts"]:
+                            if s_["k"] == "assign" and s_["rv"]["k"] == "binop" and s_["rv"]["op"] in ("Ne", "Eq"):
+                                ops = (s_["rv"]["a"], s_["rv"]["b"])
+                                consts = [o for o in ops if o.get("k") == "const" and o.get("bits") is not None and int(o["bits"], 16) == 0]
+                                roots = {root_local(T, o) for o in ops if o.get("k") in ("copy", "move")}
+                                if consts and roots & walk_locals:
+                                    exit_ok = True
+                    n_r4 += 1
+                    if exit_ok:
+                        chk.ok("index-map", "%s walk runs until the walking index is 0" % key, nontrivial=False)
+                    else:
+                        chk.violation("index-map", key + ":walk-exit", "%s: the ancestor walk does not run `while index != 0`; with any other bound (a precomputed depth, a range) "
+                                      "the root or an ancestor can be skipped for some tree shapes" % key, where=span_str(inst["blocks"][h]["term"].get("span")))
                 for bi in sorted(body):
                     t = inst["blocks"][bi]["term"]
                     if t and t["k"] == "call" and (t["func"].get("fn", {}).get("trait") or "").endswith("IndexMut"):
